@@ -1,5 +1,7 @@
 import HeimdallModel.Lemmas.Conc
-/-! Lock-state invariants of the protocol machine and deadlock freedom. -/
+/-! Lock-state invariants of the protocol machine and deadlock freedom under the deferred release discipline, for
+executions with any number of panicking lookups and changes; writers announce themselves on `rulesTreeMutex`
+before they acquire it (`wRWRequest` / `wRWAcquire`) and new readers wait behind an announced writer. -/
 namespace Heimdall.Conc
 
 variable {K T Op Req Ans : Type}
@@ -12,6 +14,18 @@ def rwHolder : Thread K T Op Req Ans → Prop
   | .writer _ pc _ => pc = .rwHeld ∨ pc = .indexWritten
   | _ => False
 
+/-- pending on or holding `rulesTreeMutex` as a writer -/
+def rwOwner : Thread K T Op Req Ans → Prop
+  | .writer _ pc _ => pc = .rwWaiting ∨ pc = .rwHeld ∨ pc = .indexWritten
+  | _ => False
+
+theorem rwOwner_of_rwHolder {t : Thread K T Op Req Ans} (h : rwHolder t) : rwOwner t := by
+  cases t with
+  | reader => simp [rwHolder] at h
+  | writer op pc loc =>
+    simp only [rwHolder] at h
+    rcases h with rfl | rfl <;> simp [rwOwner]
+
 def shapeOk : Thread K T Op Req Ans → Prop
   | .reader _ .idle a st n => a = none ∧ st = 0 ∧ n = 0
   | .reader _ .rHeld a _ n => a = none ∧ n = 0
@@ -22,65 +36,117 @@ structure LInv (c : Config K T Op Req Ans) : Prop where
   rd_len   : c.readers = c.rset.length
   rd_nodup : c.rset.Nodup
   rd_mem   : ∀ j, j ∈ c.rset ↔ activeReader (c.threads j)
-  rww_iff  : ∀ i, c.rww = some i ↔ rwHolder (c.threads i)
-  rw_excl  : c.rww ≠ none → c.rset = []
+  rww_iff  : ∀ i, c.rww = some i ↔ rwOwner (c.threads i)
+  rw_excl  : ∀ i, rwHolder (c.threads i) → c.rset = []
   shapes   : ∀ j, shapeOk (c.threads j)
 
 theorem linv_of_eq (c c' : Config K T Op Req Ans) (i : Nat) (t : Thread K T Op Req Ans)
     (hr : c'.readers = c.readers) (hs : c'.rset = c.rset) (hw : c'.rww = c.rww)
     (ht : c'.threads = upd c.threads i t)
     (hact : activeReader t ↔ activeReader (c.threads i))
-    (hrw : rwHolder t ↔ rwHolder (c.threads i))
+    (hown : rwOwner t ↔ rwOwner (c.threads i))
+    (hrw : rwHolder t → rwHolder (c.threads i))
     (hshape : shapeOk t) (h : LInv c) : LInv c' := by
-  refine ⟨by rw [hr, hs]; exact h.rd_len, by rw [hs]; exact h.rd_nodup, ?_, ?_, by rw [hw, hs]; exact h.rw_excl, ?_⟩
+  refine ⟨by rw [hr, hs]; exact h.rd_len, by rw [hs]; exact h.rd_nodup, ?_, ?_, ?_, ?_⟩
   · intro j; rw [hs, ht]
     by_cases e : j = i
     · subst e; rw [upd_same, hact]; exact h.rd_mem j
     · rw [upd_other _ _ _ _ e]; exact h.rd_mem j
   · intro j; rw [hw, ht]
     by_cases e : j = i
-    · subst e; rw [upd_same, hrw]; exact h.rww_iff j
+    · subst e; rw [upd_same, hown]; exact h.rww_iff j
     · rw [upd_other _ _ _ _ e]; exact h.rww_iff j
+  · intro j; rw [hs, ht]
+    by_cases e : j = i
+    · subst e; rw [upd_same]; intro hj; exact h.rw_excl j (hrw hj)
+    · rw [upd_other _ _ _ _ e]; exact h.rw_excl j
   · intro j; rw [ht]
     by_cases e : j = i
     · subst e; rw [upd_same]; exact hshape
     · rw [upd_other _ _ _ _ e]; exact h.shapes j
 
+/-- an active reader leaves its read section (unlock after the search, or the deferred unlock of a panicking search) -/
+theorem linv_release (c c' : Config K T Op Req Ans) (i : Nat) (t : Thread K T Op Req Ans) (hl : LInv c)
+    (hr : c'.readers = c.readers - 1) (hs : c'.rset = c.rset.erase i) (hw : c'.rww = c.rww)
+    (ht : c'.threads = upd c.threads i t)
+    (hwas : activeReader (c.threads i)) (hact : ¬ activeReader t) (hown : ¬ rwOwner t) (hshape : shapeOk t) :
+    LInv c' := by
+  have hmi : i ∈ c.rset := (hl.rd_mem i).mpr hwas
+  have hnown : ¬ rwOwner (c.threads i) := by
+    cases hti : c.threads i with
+    | writer => rw [hti] at hwas; simp [activeReader] at hwas
+    | reader => simp [rwOwner]
+  refine ⟨?_, by rw [hs]; exact hl.rd_nodup.erase i, ?_, ?_, ?_, ?_⟩
+  · rw [hr, hs, List.length_erase_of_mem hmi, hl.rd_len]
+  · intro j; rw [hs, ht]
+    by_cases e : j = i
+    · subst e
+      simp only [upd_same]
+      constructor
+      · intro hm; exact absurd hm (List.Nodup.not_mem_erase hl.rd_nodup)
+      · intro hm; exact absurd hm hact
+    · simp only [upd_other _ _ _ _ e]
+      rw [List.mem_erase_of_ne e]; exact hl.rd_mem j
+  · intro j; rw [hw, ht]
+    by_cases e : j = i
+    · subst e
+      simp only [upd_same]
+      constructor
+      · intro hj; exact absurd ((hl.rww_iff j).mp hj) hnown
+      · intro hj; exact absurd hj hown
+    · simp only [upd_other _ _ _ _ e]; exact hl.rww_iff j
+  · intro j; rw [hs, ht]
+    by_cases e : j = i
+    · subst e; simp only [upd_same]; intro hj; exact absurd (rwOwner_of_rwHolder hj) hown
+    · simp only [upd_other _ _ _ _ e]
+      intro hj
+      have := hl.rw_excl j hj
+      rw [this] at hmi; cases hmi
+  · intro j; rw [ht]
+    by_cases e : j = i
+    · subst e; rw [upd_same]; exact hshape
+    · rw [upd_other _ _ _ _ e]; exact hl.shapes j
+
 theorem linv_step (s : Seq K T Op Req Ans) (c c' : Config K T Op Req Ans)
-    (hi : Inv s c) (hl : LInv c) (hs : Step s c c') : LInv c' := by
+    (hi : Inv s c) (hl : LInv c) (hs : Step .deferred s c c') : LInv c' := by
   cases hs with
-  | wLock i op loc h free =>
-    exact linv_of_eq c _ i _ rfl rfl rfl rfl (by simp [h, activeReader]) (by simp [h, rwHolder]) (by simp [shapeOk]) hl
-  | wReadKnown i op loc h hlk =>
-    exact linv_of_eq c _ i _ rfl rfl rfl rfl (by simp [h, activeReader]) (by simp [h, rwHolder]) (by simp [shapeOk]) hl
-  | wClone i op loc h hlk =>
-    exact linv_of_eq c _ i _ rfl rfl rfl rfl (by simp [h, activeReader]) (by simp [h, rwHolder]) (by simp [shapeOk]) hl
-  | wComputeOk i op loc st' h hlk ha =>
-    exact linv_of_eq c _ i _ rfl rfl rfl rfl (by simp [h, activeReader]) (by simp [h, rwHolder]) (by simp [shapeOk]) hl
-  | wComputeErr i op loc h hlk ha =>
-    exact linv_of_eq c _ i _ rfl rfl rfl rfl (by simp [h, activeReader]) (by simp [h, rwHolder]) (by simp [shapeOk]) hl
-  | wFail i op loc h hlk =>
-    exact linv_of_eq c _ i _ rfl rfl rfl rfl (by simp [h, activeReader]) (by simp [h, rwHolder]) (by simp [shapeOk]) hl
-  | wKnown i op st' h hlk =>
-    exact linv_of_eq c _ i _ rfl rfl rfl rfl (by simp [h, activeReader]) (by simp [h, rwHolder]) (by simp [shapeOk]) hl
-  | wIndex i op st' h hrw =>
-    exact linv_of_eq c _ i _ rfl rfl rfl rfl (by simp [h, activeReader]) (by simp [h, rwHolder]) (by simp [shapeOk]) hl
-  | wUnlock i op st' h hlk =>
-    exact linv_of_eq c _ i _ rfl rfl rfl rfl (by simp [h, activeReader]) (by simp [h, rwHolder]) (by simp [shapeOk]) hl
-  | rSearch i rq st h =>
-    exact linv_of_eq c _ i _ rfl rfl rfl rfl (by simp [h, activeReader]) (by simp [h, rwHolder]) (by simp [shapeOk]) hl
-  | wRWLock i op st' h free nor =>
-    have hrs : c.rset = [] := by
-      have := hl.rd_len; rw [nor] at this
-      exact List.length_eq_zero_iff.mp this.symm
-    refine ⟨hl.rd_len, hl.rd_nodup, ?_, ?_, fun _ => hrs, ?_⟩
+  | wPanicLeaked hd _ i op pc loc h hpc hlk => cases hd
+  | rPanicLeaked hd _ i rq st h => cases hd
+  | wLock _ i op loc h free =>
+    exact linv_of_eq c _ i _ rfl rfl rfl rfl (by simp [h, activeReader]) (by simp [h, rwOwner]) (by simp [rwHolder]) (by simp [shapeOk]) hl
+  | wReadKnown _ i op loc h hlk =>
+    exact linv_of_eq c _ i _ rfl rfl rfl rfl (by simp [h, activeReader]) (by simp [h, rwOwner]) (by simp [rwHolder]) (by simp [shapeOk]) hl
+  | wClone _ i op loc h hlk =>
+    exact linv_of_eq c _ i _ rfl rfl rfl rfl (by simp [h, activeReader]) (by simp [h, rwOwner]) (by simp [rwHolder]) (by simp [shapeOk]) hl
+  | wComputeOk _ i op loc st' h hlk ha =>
+    exact linv_of_eq c _ i _ rfl rfl rfl rfl (by simp [h, activeReader]) (by simp [h, rwOwner]) (by simp [rwHolder]) (by simp [shapeOk]) hl
+  | wComputeErr _ i op loc h hlk ha =>
+    exact linv_of_eq c _ i _ rfl rfl rfl rfl (by simp [h, activeReader]) (by simp [h, rwOwner]) (by simp [rwHolder]) (by simp [shapeOk]) hl
+  | wFail _ i op loc h hlk =>
+    exact linv_of_eq c _ i _ rfl rfl rfl rfl (by simp [h, activeReader]) (by simp [h, rwOwner]) (by simp [rwHolder]) (by simp [shapeOk]) hl
+  | wKnown _ i op st' h hlk =>
+    exact linv_of_eq c _ i _ rfl rfl rfl rfl (by simp [h, activeReader]) (by simp [h, rwOwner]) (by simp [rwHolder]) (by simp [shapeOk]) hl
+  | wIndex _ i op st' h hrw =>
+    exact linv_of_eq c _ i _ rfl rfl rfl rfl (by simp [h, activeReader]) (by simp [h, rwOwner]) (by simp [h, rwHolder]) (by simp [shapeOk]) hl
+  | wUnlock _ i op st' h hlk =>
+    exact linv_of_eq c _ i _ rfl rfl rfl rfl (by simp [h, activeReader]) (by simp [h, rwOwner]) (by simp [rwHolder]) (by simp [shapeOk]) hl
+  | wPanicReleased hd _ i op pc loc h hpc hlk =>
+    refine linv_of_eq c _ i _ rfl rfl rfl rfl ?_ ?_ (by simp [rwHolder]) (by simp [shapeOk]) hl
+    · rcases hpc with rfl | rfl <;> simp [h, activeReader]
+    · rcases hpc with rfl | rfl <;> simp [h, rwOwner]
+  | rSearch _ i rq st h =>
+    exact linv_of_eq c _ i _ rfl rfl rfl rfl (by simp [h, activeReader]) (by simp [h, rwOwner]) (by simp [rwHolder]) (by simp [shapeOk]) hl
+  | wRWRequest _ i op st' h free =>
+    refine ⟨hl.rd_len, hl.rd_nodup, ?_, ?_, ?_, ?_⟩
     · intro j
       by_cases e : j = i
-      · subst e; simp only [upd_same, activeReader, iff_false]; rw [hrs]; simp
+      · subst e
+        simp only [upd_same, activeReader, iff_false]
+        intro hm; have := (hl.rd_mem j).mp hm; rw [h] at this; simp [activeReader] at this
       · simp only [upd_other _ _ _ _ e]; exact hl.rd_mem j
     · intro j
       by_cases e : j = i
-      · subst e; simp [rwHolder]
+      · subst e; simp [rwOwner]
       · simp only [upd_other _ _ _ _ e]
         constructor
         · intro hj; exact absurd (Option.some.inj hj).symm e
@@ -90,19 +156,41 @@ theorem linv_step (s : Seq K T Op Req Ans) (c c' : Config K T Op Req Ans)
           rw [free] at this; cases this
     · intro j
       by_cases e : j = i
+      · subst e; simp [rwHolder]
+      · simp only [upd_other _ _ _ _ e]; exact hl.rw_excl j
+    · intro j
+      by_cases e : j = i
       · subst e; simp [shapeOk]
       · simp only [upd_other _ _ _ _ e]; exact hl.shapes j
-  | wRWUnlock i op st' h hrw =>
-    refine ⟨hl.rd_len, hl.rd_nodup, ?_, ?_, by simp, ?_⟩
+  | wRWAcquire _ i op st' h hrw nor =>
+    have hrs : c.rset = [] := by
+      have := hl.rd_len; rw [nor] at this
+      exact List.length_eq_zero_iff.mp this.symm
+    refine ⟨hl.rd_len, hl.rd_nodup, ?_, ?_, fun _ _ => hrs, ?_⟩
+    · intro j
+      by_cases e : j = i
+      · subst e; simp only [upd_same, activeReader, iff_false]; rw [hrs]; simp
+      · simp only [upd_other _ _ _ _ e]; exact hl.rd_mem j
+    · intro j
+      by_cases e : j = i
+      · subst e; simp [rwOwner, hrw]
+      · simp only [upd_other _ _ _ _ e]; exact hl.rww_iff j
+    · intro j
+      by_cases e : j = i
+      · subst e; simp [shapeOk]
+      · simp only [upd_other _ _ _ _ e]; exact hl.shapes j
+  | wRWUnlock _ i op st' h hrw =>
+    have hrs : c.rset = [] := hl.rw_excl i (by rw [h]; simp [rwHolder])
+    refine ⟨hl.rd_len, hl.rd_nodup, ?_, ?_, fun _ _ => hrs, ?_⟩
     · intro j
       by_cases e : j = i
       · subst e
         simp only [upd_same, activeReader, iff_false]
-        rw [hl.rw_excl (by rw [hrw]; simp)]; simp
+        rw [hrs]; simp
       · simp only [upd_other _ _ _ _ e]; exact hl.rd_mem j
     · intro j
       by_cases e : j = i
-      · subst e; simp [rwHolder]
+      · subst e; simp [rwOwner]
       · simp only [upd_other _ _ _ _ e]
         constructor
         · intro hj; cases hj
@@ -114,10 +202,12 @@ theorem linv_step (s : Seq K T Op Req Ans) (c c' : Config K T Op Req Ans)
       by_cases e : j = i
       · subst e; simp [shapeOk]
       · simp only [upd_other _ _ _ _ e]; exact hl.shapes j
-  | rLock i rq h free =>
+  | rLock _ i rq h free =>
     have hni : i ∉ c.rset := by
       intro hm; have := (hl.rd_mem i).mp hm; rw [h] at this; simp [activeReader] at this
-    refine ⟨by simp [hl.rd_len], List.nodup_cons.mpr ⟨hni, hl.rd_nodup⟩, ?_, ?_, by simp [free], ?_⟩
+    have hnoown : ∀ j, ¬ rwOwner (c.threads j) := by
+      intro j hj; have := (hl.rww_iff j).mpr hj; rw [free] at this; cases this
+    refine ⟨by simp [hl.rd_len], List.nodup_cons.mpr ⟨hni, hl.rd_nodup⟩, ?_, ?_, ?_, ?_⟩
     · intro j
       by_cases e : j = i
       · subst e; simp [activeReader]
@@ -125,66 +215,50 @@ theorem linv_step (s : Seq K T Op Req Ans) (c c' : Config K T Op Req Ans)
     · intro j
       by_cases e : j = i
       · subst e
-        simp only [upd_same, rwHolder, iff_false]
+        simp only [upd_same, rwOwner, iff_false]
         intro hj
-        have := (hl.rww_iff j).mp hj
-        rw [h] at this; simp [rwHolder] at this
+        exact hnoown j ((hl.rww_iff j).mp hj)
       · simp only [upd_other _ _ _ _ e]; exact hl.rww_iff j
     · intro j
       by_cases e : j = i
-      · subst e; simp [shapeOk]
-      · simp only [upd_other _ _ _ _ e]; exact hl.shapes j
-  | rUnlock i rq a st n h =>
-    have hmi : i ∈ c.rset := (hl.rd_mem i).mpr (by rw [h]; simp [activeReader])
-    refine ⟨?_, hl.rd_nodup.erase i, ?_, ?_, ?_, ?_⟩
-    · simp only [List.length_erase_of_mem hmi, hl.rd_len]
-    · intro j
-      by_cases e : j = i
-      · subst e
-        simp only [upd_same, activeReader]
-        constructor
-        · intro hm; exact absurd hm (List.Nodup.not_mem_erase hl.rd_nodup)
-        · intro hm; simp at hm
+      · subst e; simp [rwHolder]
       · simp only [upd_other _ _ _ _ e]
-        rw [List.mem_erase_of_ne e]; exact hl.rd_mem j
-    · intro j
-      by_cases e : j = i
-      · subst e
-        simp only [upd_same, rwHolder, iff_false]
-        intro hj
-        have := (hl.rww_iff j).mp hj
-        rw [h] at this; simp [rwHolder] at this
-      · simp only [upd_other _ _ _ _ e]; exact hl.rww_iff j
-    · intro hw
-      have := hl.rw_excl hw
-      rw [this] at hmi; cases hmi
+        intro hj; exact absurd (rwOwner_of_rwHolder hj) (hnoown j)
     · intro j
       by_cases e : j = i
       · subst e; simp [shapeOk]
       · simp only [upd_other _ _ _ _ e]; exact hl.shapes j
+  | rUnlock _ i rq a st n h =>
+    exact linv_release c _ i _ hl rfl rfl rfl rfl (by rw [h]; simp [activeReader]) (by simp [activeReader])
+      (by simp [rwOwner]) (by simp [shapeOk])
+  | rPanicReleased hd _ i rq st h =>
+    exact linv_release c _ i _ hl rfl rfl rfl rfl (by rw [h]; simp [activeReader]) (by simp [activeReader])
+      (by simp [rwOwner]) (by simp [shapeOk])
 
 theorem linv_initial (s : Seq K T Op Req Ans) (c : Config K T Op Req Ans) (h : Initial s c) : LInv c := by
   obtain ⟨_, _, h3, h4, _, _, h7, h8⟩ := h
-  refine ⟨by simp [h4, h7], by simp [h7], ?_, ?_, by simp [h3], ?_⟩
+  refine ⟨by simp [h4, h7], by simp [h7], ?_, ?_, fun _ _ => h7, ?_⟩
   · intro j
     rcases h8 j with ⟨op, loc, e⟩ | ⟨rq, e⟩ <;> simp [e, h7, activeReader]
   · intro j
-    rcases h8 j with ⟨op, loc, e⟩ | ⟨rq, e⟩ <;> simp [e, h3, rwHolder]
+    rcases h8 j with ⟨op, loc, e⟩ | ⟨rq, e⟩ <;> simp [e, h3, rwOwner]
   · intro j
     rcases h8 j with ⟨op, loc, e⟩ | ⟨rq, e⟩ <;> simp [e, shapeOk]
 
-theorem linv_reachable (s : Seq K T Op Req Ans) (c : Config K T Op Req Ans) (h : Reachable s c) : LInv c := by
+theorem linv_reachable (s : Seq K T Op Req Ans) (c : Config K T Op Req Ans) (h : Reachable .deferred s c) :
+    LInv c := by
   induction h with
   | init c hc => exact linv_initial s c hc
   | step c c' hr hs ih => exact linv_step s c c' (inv_reachable s c hr) ih hs
 
+/-- the goroutine has returned — with a result, or because a panic ended it -/
 def finished : Thread K T Op Req Ans → Prop
-  | .writer _ pc _ => pc = .doneOk ∨ pc = .doneFail
-  | .reader _ pc _ _ _ => pc = .done
+  | .writer _ pc _ => pc = .doneOk ∨ pc = .doneFail ∨ pc = .crashed
+  | .reader _ pc _ _ _ => pc = .done ∨ pc = .crashed
 
 /-- an active reader can always take its next step -/
-theorem reader_can_step (s : Seq K T Op Req Ans) (c : Config K T Op Req Ans) (hl : LInv c) (j : Nat)
-    (hj : activeReader (c.threads j)) : ∃ c', Step s c c' := by
+theorem reader_can_step (d : Discipline) (s : Seq K T Op Req Ans) (c : Config K T Op Req Ans) (hl : LInv c) (j : Nat)
+    (hj : activeReader (c.threads j)) : ∃ c', Step d s c c' := by
   have hsh := hl.shapes j
   cases ht : c.threads j with
   | writer op pc loc => rw [ht] at hj; simp [activeReader] at hj
@@ -193,6 +267,7 @@ theorem reader_can_step (s : Seq K T Op Req Ans) (c : Config K T Op Req Ans) (hl
     cases pc with
     | idle => simp [activeReader] at hj
     | done => simp [activeReader] at hj
+    | crashed => simp [activeReader] at hj
     | rHeld =>
       simp only [shapeOk] at hsh
       obtain ⟨rfl, rfl⟩ := hsh
@@ -203,9 +278,22 @@ theorem reader_can_step (s : Seq K T Op Req Ans) (c : Config K T Op Req Ans) (hl
       | none => exact absurd rfl hsh
       | some x => exact ⟨_, Step.rUnlock c j rq x st n ht⟩
 
-/-- **Deadlock freedom**: as long as some thread has not finished, some thread can take a step -/
+/-- nobody is pending on or holds `rulesTreeMutex` as a writer unless it is the holder of `knownRulesMutex` -/
+theorem rww_holder (s : Seq K T Op Req Ans) (c : Config K T Op Req Ans) (hi : Inv s c) (hl : LInv c) (k : Nat)
+    (hr : c.rww = some k) : c.wlock = some k := by
+  have hk := (hl.rww_iff k).mp hr
+  apply holder_of_inCS s c hi k
+  cases htk : c.threads k with
+  | reader => rw [htk] at hk; simp [rwOwner] at hk
+  | writer op' pc' loc' =>
+    rw [htk] at hk
+    simp only [rwOwner] at hk
+    rcases hk with rfl | rfl | rfl <;> simp [inCS]
+
+/-- **Deadlock freedom**: as long as some thread has not finished, some thread can take a step — whatever number
+of lookups and changes have panicked before (their locks were released by the deferred unlocks) -/
 theorem progress (s : Seq K T Op Req Ans) (c : Config K T Op Req Ans) (hi : Inv s c) (hl : LInv c)
-    (i : Nat) (hnf : ¬ finished (c.threads i)) : ∃ c', Step s c c' := by
+    (i : Nat) (hnf : ¬ finished (c.threads i)) : ∃ c', Step .deferred s c c' := by
   cases hw : c.wlock with
   | some h =>
     -- the holder of knownRulesMutex is inside its critical section and can always move on
@@ -218,6 +306,7 @@ theorem progress (s : Seq K T Op Req Ans) (c : Config K T Op Req Ans) (hi : Inv 
       | idle => simp [holderOk] at hh
       | doneOk => simp [holderOk] at hh
       | doneFail => simp [holderOk] at hh
+      | crashed => simp [holderOk] at hh
       | locked => exact ⟨_, Step.wReadKnown c h op loc ht hw⟩
       | readK => exact ⟨_, Step.wClone c h op loc ht hw⟩
       | cloned =>
@@ -232,31 +321,27 @@ theorem progress (s : Seq K T Op Req Ans) (c : Config K T Op Req Ans) (hi : Inv 
           | none => rfl
           | some k =>
             exfalso
-            have hk := (hl.rww_iff k).mp hr
-            have hkcs : inCS (c.threads k) := by
-              cases htk : c.threads k with
-              | reader => rw [htk] at hk; simp [rwHolder] at hk
-              | writer op' pc' loc' =>
-                rw [htk] at hk
-                simp only [rwHolder] at hk
-                rcases hk with rfl | rfl <;> simp [inCS]
-            have := holder_of_inCS s c hi k hkcs
+            have := rww_holder s c hi hl k hr
             rw [hw] at this
             have hkh : h = k := Option.some.inj this
             subst hkh
-            rw [ht] at hk; simp [rwHolder] at hk
+            have hk := (hl.rww_iff h).mp hr
+            rw [ht] at hk; simp [rwOwner] at hk
+        exact ⟨_, Step.wRWRequest c h op loc ht hfree⟩
+      | rwWaiting =>
+        have hrw : c.rww = some h := (hl.rww_iff h).mpr (by rw [ht]; simp [rwOwner])
         by_cases hrd : c.readers = 0
-        · exact ⟨_, Step.wRWLock c h op loc ht hfree hrd⟩
-        · -- some reader holds the read lock and can move on
+        · exact ⟨_, Step.wRWAcquire c h op loc ht hrw hrd⟩
+        · -- some reader still holds the read lock and can move on (search, unlock, or panic and unwind)
           have : c.rset ≠ [] := by
             intro he; apply hrd; rw [hl.rd_len, he]; rfl
           obtain ⟨j, hj⟩ := List.exists_mem_of_ne_nil _ this
-          exact reader_can_step s c hl j ((hl.rd_mem j).mp hj)
+          exact reader_can_step _ s c hl j ((hl.rd_mem j).mp hj)
       | rwHeld =>
-        have := (hl.rww_iff h).mpr (by rw [ht]; simp [rwHolder])
+        have := (hl.rww_iff h).mpr (by rw [ht]; simp [rwOwner])
         exact ⟨_, Step.wIndex c h op loc ht this⟩
       | indexWritten =>
-        have := (hl.rww_iff h).mpr (by rw [ht]; simp [rwHolder])
+        have := (hl.rww_iff h).mpr (by rw [ht]; simp [rwOwner])
         exact ⟨_, Step.wRWUnlock c h op loc ht this⟩
       | rwReleased => exact ⟨_, Step.wUnlock c h op loc ht hw⟩
   | none =>
@@ -266,15 +351,7 @@ theorem progress (s : Seq K T Op Req Ans) (c : Config K T Op Req Ans) (hi : Inv 
       | none => rfl
       | some k =>
         exfalso
-        have hk := (hl.rww_iff k).mp hr
-        have hkcs : inCS (c.threads k) := by
-          cases htk : c.threads k with
-          | reader => rw [htk] at hk; simp [rwHolder] at hk
-          | writer op' pc' loc' =>
-            rw [htk] at hk
-            simp only [rwHolder] at hk
-            rcases hk with rfl | rfl <;> simp [inCS]
-        have := holder_of_inCS s c hi k hkcs
+        have := rww_holder s c hi hl k hr
         rw [hw] at this; cases this
     cases ht : c.threads i with
     | writer op pc loc =>
@@ -288,11 +365,12 @@ theorem progress (s : Seq K T Op Req Ans) (c : Config K T Op Req Ans) (hi : Inv 
       rw [ht] at hnf hsh
       cases pc with
       | done => simp [finished] at hnf
+      | crashed => simp [finished] at hnf
       | idle =>
         simp only [shapeOk] at hsh
         obtain ⟨rfl, rfl, rfl⟩ := hsh
         exact ⟨_, Step.rLock c i rq ht hfree⟩
-      | rHeld => exact reader_can_step s c hl i (by rw [ht]; simp [activeReader])
-      | searched => exact reader_can_step s c hl i (by rw [ht]; simp [activeReader])
+      | rHeld => exact reader_can_step _ s c hl i (by rw [ht]; simp [activeReader])
+      | searched => exact reader_can_step _ s c hl i (by rw [ht]; simp [activeReader])
 
 end Heimdall.Conc
